@@ -173,6 +173,7 @@ def control_ok():
 #      connector's connection attempt backs off exponentially; service must still resume promptly once the upstream
 #      is back (own proxy, own upstream: nothing here touches the schedules below)
 long_result = {}
+OUTAGE_S = 110 if tier() == 'thorough' else 34
 def long_quic_outage():
     try:
         qh = QuicHop()
@@ -205,7 +206,7 @@ def long_quic_outage():
         qh.stop()
         t0 = time.time()
         down_ok = 0
-        while time.time() - t0 < 34:
+        while time.time() - t0 < OUTAGE_S:
             if lprobe(2.0):
                 down_ok += 1
             time.sleep(1.0)
@@ -404,13 +405,13 @@ if tier() == 'thorough' and px.alive():
             for site, cls, detail in vs:
                 chk.violation(site, cls + ':second-outage', detail, {'connector': kind, 'faults': [f1, f2]})
 
-long_thread.join(120)
+long_thread.join(240)
 evals += 1
 if long_thread.is_alive() or 'machinery' in long_result:
     machinery(f'long QUIC outage scenario: {long_result.get("machinery", "did not finish")}')
 distinct.add(('long-quic-outage', long_result.get('recovered') is not None))
 if long_result.get('recovered') is None:
-    chk.violation('recovery.resume', 'no-service-after-upstream-returned:quic/away-34s-with-requests-arriving', f'quic upstream away for 34 s while one request per second kept arriving: {K} attempts ({long_result.get("gave_up_after_s")} s) after it was back, still no tunnel', {'connector': 'quic', 'outage_s': 34})
+    chk.violation('recovery.resume', f'no-service-after-upstream-returned:quic/away-{OUTAGE_S}s-with-requests-arriving', f'quic upstream away for {OUTAGE_S} s while one request per second kept arriving: {K} attempts ({long_result.get("gave_up_after_s")} s) after it was back, still no tunnel', {'connector': 'quic', 'outage_s': OUTAGE_S})
 if long_result.get('served_while_down'):
     chk.violation('recovery.resume', 'tunnel-established-while-upstream-was-away:quic', f'{long_result["served_while_down"]} probes succeeded while the QUIC upstream process was not running', {})
 samples.append({'long_quic_outage': long_result})
@@ -424,6 +425,6 @@ for o in (echo, qecho, cecho):
 if evals < 12 or len(distinct) < 5:
     machinery(f'vacuous: evals={evals} distinct={len(distinct)}')
 cov = {'evaluations': evals, 'distinct_nontrivial': len(distinct), 'transitions': evals, 'traces_validated_against_impl': evals,
-       'rule': f'real binary: connector kind {KINDS} x outage phase {PHASES} x fault {FAULTS} (quick: handshake phase only with restart; thorough adds all pairs of outages); recovery = a probe succeeds within K={K} attempts of {DEADLINE} s after the upstream is reachable again; control tunnel checked during and after every outage; a QUIC upstream away for 34 s with one request per second arriving meanwhile (the connection attempt backs off exponentially); plus, for http and socks5 upstreams, a listener that silently drops connection attempts with 48 requests pending while the control tunnel and new direct requests are timed',
+       'rule': f'real binary: connector kind {KINDS} x outage phase {PHASES} x fault {FAULTS} (quick: handshake phase only with restart; thorough adds all pairs of outages); recovery = a probe succeeds within K={K} attempts of {DEADLINE} s after the upstream is reachable again; control tunnel checked during and after every outage; a QUIC upstream away for 34 s (thorough 110 s) with one request per second arriving meanwhile (the connection attempt backs off exponentially); plus, for http and socks5 upstreams, a listener that silently drops connection attempts with 48 requests pending while the control tunnel and new direct requests are timed',
        'schedules': evals, 'K': K, 'deadline_s': DEADLINE, 'schedule_control': 'kernel', 'samples': samples}
 sys.exit(chk.finish('fault_enumeration', cov, ['silent packet loss on the QUIC path with later recovery is out of reach (needs the 3600 s idle timeout)', 'upstreams are Python servers / a second redproxy process killed with SIGKILL'], merge=False))
